@@ -266,6 +266,7 @@ def thin {α : Type} (cap : Nat) (l : List α) : List α :=
   let k := (n + cap - 1) / cap
   (l.zipIdx.filter fun (_, i) => i % k = 0).map (·.1)
 
+/-- relative to the extent of the operands -/
 def margin : Rat := 1 / 1000000
 
 /-- drop the elements of a sorted list that are within `eps` of the previously kept one -/
@@ -294,16 +295,16 @@ event abscissae = vertex abscissae of operands and result and the crossings of o
 each slab the edges spanning its midline are ordered by their ordinate there and one point is taken
 in every gap (and one below and above all of them).  Events and ordinates closer than 1e-9 are
 merged (result vertices are rounded copies of exact crossings). -/
-def slabPoints (a b r : Contours) : List P :=
+def slabPoints (eps : Rat) (a b r : Contours) : List P :=
   let inE := allEdges a ++ allEdges b
   let allE := inE ++ allEdges r
-  let evs := dedupTol (1 / 1000000000) <| sortDedup <|
+  let evs := dedupTol eps <| sortDedup <|
     (allE.flatMap fun e => [e.1.x, e.2.x]) ++
     ((allEdges a).flatMap fun e => (allEdges b).filterMap fun f => crossX e.1 e.2 f.1 f.2)
   let rec slabs : List Rat → List P
     | x0 :: x1 :: t =>
       let xm := (x0 + x1) / 2
-      let ys := dedupTol (1 / 1000000000) <| sortDedup <| allE.filterMap fun (p, q) =>
+      let ys := dedupTol eps <| sortDedup <| allE.filterMap fun (p, q) =>
         if (decide (p.x < xm) && decide (xm < q.x)) || (decide (q.x < xm) && decide (xm < p.x)) then some (yAt p q xm) else none
       (if ys.isEmpty then [] else (centres ys).map fun y => (⟨xm, y⟩ : P)) ++ slabs (x1 :: t)
     | _ => []
@@ -312,23 +313,33 @@ def slabPoints (a b r : Contours) : List P :=
 /-- sample points for the case `(A, B, R)`: one point in every cell of the slab decomposition,
 centres of the cells of the grid through all vertex coordinates of operands and result, and points
 beside every edge midpoint -/
-def samplePoints (cap : Nat) (a b r : Contours) : List P :=
+def samplePoints (cap : Nat) (eps : Rat) (a b r : Contours) : List P :=
   let pts := coordsOf a ++ coordsOf b ++ coordsOf r
   let xs := centres (sortDedup (pts.map (·.x)))
   let ys := centres (sortDedup (pts.map (·.y)))
   let grid := xs.flatMap fun x => ys.map fun y => (⟨x, y⟩ : P)
-  thin cap (slabPoints a b r) ++ thin (cap / 2) grid ++ sidePoints a ++ sidePoints b ++ thin (cap / 4) (sidePoints r)
+  thin cap (slabPoints eps a b r) ++ thin (cap / 2) grid ++ sidePoints a ++ sidePoints b ++ thin (cap / 4) (sidePoints r)
+
+/-- the larger side of the common bounding box of the operands (1 when there is none): margins and
+merge tolerances are RELATIVE to it, so that the oracle is as sharp at coordinate scale 2^-30 or
+2^20 as at scale 1 -/
+def extentOf (a b : Contours) : Rat :=
+  match bbox (a ++ b) with
+  | some (mn, mx) => let e := max (mx.x - mn.x) (mx.y - mn.y); if e = 0 then 1 else e
+  | none => 1
 
 /-- first sample point (with margin) at which the result's membership differs from the truth
 table; also returns the number of points tested -/
 def sampleCheck (cap : Nat) (op : Op) (A B : Operand) (R : Option Operand) : Option P × Nat :=
   let ra := A.rings; let rb := B.rings
   let rr := match R with | none => [] | some o => o.rings
-  let pts := (samplePoints cap ra rb rr).filter fun p => clearOf margin ra p && clearOf margin rb p
+  let ext := extentOf ra rb
+  let m := margin * ext
+  let pts := (samplePoints cap (ext / 1000000000) ra rb rr).filter fun p => clearOf m ra p && clearOf m rb p
   (pts.find? fun p => memberRes R p != opBool op (member A p) (member B p), pts.length)
 
 /-- the operands are well nested (holes in shells, members disjoint) as far as the sample points tell -/
 def nestedCheck (cap : Nat) (A B : Operand) : Bool :=
-  (samplePoints cap A.rings B.rings []).all fun p => wellNestedAt A p && wellNestedAt B p
+  (samplePoints cap (extentOf A.rings B.rings / 1000000000) A.rings B.rings []).all fun p => wellNestedAt A p && wellNestedAt B p
 
 end GeomV.C01
